@@ -588,6 +588,15 @@ def make_machine(ctx: core.Ctx, configs: typing.List[dict]):
                 cfg_fail = dict(cfg, argv=list(cfg["argv"]) + ["--generate-support", "never", "--pp-run-program", "false"])
                 rc, _, _ = env.run(keys, cfg_fail, inproc=True)
                 ctx.event("aborted-run-in-interpreter" + ("" if rc != 0 else ".did-not-fail"))
+                # ... followed at once by a run that generates the type files only (no support file is rendered in between)
+                cfg_ns = dict(cfg, argv=list(cfg["argv"]) + ["--generate-support", "never"])
+                rc, files, se = env.run(keys, cfg_ns, inproc=True)
+                if rc != 0:
+                    ctx.fail(f"C10|{cfg['name'].split('+')[0]}|run-failed|inproc-after-aborted-run", f"generating {keys}: {se[-600:]}", {"universe": env.variants[0], "trace": list(self.trace)})
+                    raise AssertionError("run failed")
+                self.inproc_runs += 1
+                if not compare(ctx, env, keys, cfg, files, "same-interpreter|after-aborted-run", list(self.trace)):
+                    raise AssertionError("type file differs from model")
                 return
             rc, files, se = env.run(keys, cfg, inproc=step["inproc"], hashseed=step.get("hashseed", "0"), creation_order=step.get("creation"))
             if rc != 0:
